@@ -219,6 +219,70 @@ def line_of(n, default=None):
     return default
 
 
+def _walk_nodes(n):
+    if isinstance(n, dict):
+        yield n
+        for c in n.get('inner', []) or []:
+            yield from _walk_nodes(c)
+
+
+def _undo_c_renames(funcs, unit, fn_renames):
+    """Undo consistent renames of static helpers, parameters and locals (see c_reference.py): the rules read names from
+    the model, and a name is not behaviour.  Parameters are matched by position, locals by name first, then by type in
+    declaration order, functions of a unit by their parameter type list."""
+    from .c_reference import REFERENCE
+    present = {fn['name'] for fn in funcs}
+    ref_here = {k: v for k, v in REFERENCE.items() if v['unit'] == unit}
+    missing = [k for k in ref_here if k not in present]
+    for fn in funcs:
+        if fn['name'] in REFERENCE:
+            continue
+        ptypes = [p['type']['qualType'] for p in fn.get('inner', []) if p.get('kind') == 'ParmVarDecl']
+        cand = [k for k in missing if [t for _, t in ref_here[k]['params']] == ptypes]
+        if len(cand) == 1:
+            fn_renames[fn['name']] = cand[0]
+            fn['name'] = cand[0]
+            missing.remove(cand[0])
+    for fn in funcs:
+        ref = REFERENCE.get(fn['name'])
+        if ref is None or ref['unit'] != unit:
+            continue
+        idmap = {}
+        params = [p for p in fn.get('inner', []) if p.get('kind') == 'ParmVarDecl']
+        if len(params) == len(ref['params']):
+            for p_, (rn, rt) in zip(params, ref['params']):
+                if p_.get('name') and p_['name'] != rn:
+                    idmap[p_['id']] = rn
+        body = [c for c in fn.get('inner', []) if c.get('kind') == 'CompoundStmt']
+        decls = [n for n in _walk_nodes(body[0])] if body else []
+        decls = [n for n in decls if n.get('kind') == 'VarDecl']
+        cur_names = [d['name'] for d in decls]
+        ref_un = [(n_, t_) for n_, t_ in ref['locals'] if n_ not in cur_names]
+        cur_un = [d for d in decls if d['name'] not in [n_ for n_, _ in ref['locals']]]
+        # by type, in declaration order
+        for t_ in sorted({t for _, t in ref_un}):
+            r_ = [n_ for n_, tt in ref_un if tt == t_]
+            c_ = [d for d in cur_un if d['type']['qualType'] == t_]
+            if len(r_) == len(c_):
+                for d, rn in zip(c_, r_):
+                    idmap[d['id']] = rn
+                ref_un = [(n_, tt) for n_, tt in ref_un if tt != t_]
+                cur_un = [d for d in cur_un if d['type']['qualType'] != t_]
+        if ref_un and len(ref_un) == len(cur_un):
+            for d, (rn, _) in zip(cur_un, ref_un):
+                idmap[d['id']] = rn
+        if not idmap:
+            continue
+        taken = {p_.get('name') for p_ in params if p_['id'] not in idmap} | {d['name'] for d in decls if d['id'] not in idmap}
+        idmap = {k: v for k, v in idmap.items() if v not in taken}
+        for n in _walk_nodes(fn):
+            if n.get('kind') in ('ParmVarDecl', 'VarDecl') and n.get('id') in idmap:
+                n['name'] = idmap[n['id']]
+            rd = n.get('referencedDecl')
+            if isinstance(rd, dict) and rd.get('id') in idmap:
+                rd['name'] = idmap[rd['id']]
+
+
 class CFunc:
     """One function definition with pre-computed fact lists."""
 
@@ -493,7 +557,10 @@ class CProgram:
         self.globals = {}        # name -> dict(unit, type, const)
         self.unit_of = {}
         self.notes = []
+        self.fn_renames = {}
+        self._units = []         # (unit, reduced data) in load order
         self._load()
+        self._build()
 
     def summary(self):
         return dict(units=UNITS, functions=sorted(self.funcs), python_h=self.python_h)
@@ -558,12 +625,25 @@ class CProgram:
                 cf.write_bytes(pickle.dumps(data))
             except Exception:
                 pass
-        for fn in data['funcs']:
-            f = CFunc(fn, u)
-            self.funcs[f.name] = f
-            self.unit_of[f.name] = u
-        for g in data['globals']:
-            self.globals[g['name']] = dict(unit=u, type=g['type']['qualType'], line=line_of(g, 0))
+        self._units.append((u, data))
+
+    def _build(self):
+        for u, data in self._units:
+            _undo_c_renames(data['funcs'], u, self.fn_renames)
+        if self.fn_renames:
+            for u, data in self._units:
+                for fn in data['funcs']:
+                    for n in _walk_nodes(fn):
+                        rd = n.get('referencedDecl')
+                        if isinstance(rd, dict) and rd.get('kind') == 'FunctionDecl' and rd.get('name') in self.fn_renames:
+                            rd['name'] = self.fn_renames[rd['name']]
+        for u, data in self._units:
+            for fn in data['funcs']:
+                f = CFunc(fn, u)
+                self.funcs[f.name] = f
+                self.unit_of[f.name] = u
+            for g in data['globals']:
+                self.globals[g['name']] = dict(unit=u, type=g['type']['qualType'], line=line_of(g, 0))
 
     @staticmethod
     def _reduce(tree, main_path):
